@@ -3,10 +3,11 @@
 rc=0
 for d in /verif/seeded/*/; do
   n=$(basename $d); id=$(python3 -c "import json;print(json.load(open('$d/meta.json'))['property'])")
+  nd=$(python3 -c "import json;print('1' if json.load(open('$d/meta.json')).get('not_detected') else '')")
   r=$(/verif/tools_seeded.sh $d/patch.diff $id 2>&1)
   case "$r" in
     *"exit=1"*) echo "$n: reported by $id  $(echo "$r" | sed 's/.*violation: \([^ ]*\).*/\1/' | head -1 | cut -c1-100)";;
-    *) echo "$n: NOT REPORTED by $id ($r)"; rc=1;;
+    *) if [ -n "$nd" ]; then echo "$n: not reported by $id (documented limit, see meta.json)"; else echo "$n: NOT REPORTED by $id ($r)"; rc=1; fi;;
   esac
 done
 exit $rc
